@@ -18,6 +18,7 @@ from __future__ import annotations
 
 import copy
 import json
+import sys
 
 from sim import incarnation, refstate, scenes, simfs
 from sim.core import EventLog, Rng, Streams, ddmin, hash64, run_seed, tensor_digest
@@ -586,21 +587,120 @@ SELFTEST_N = {"quick": 6, "thorough": 40}
 def plan(tier, seed, scale=1.0):
     recipes = scene_recipes(tier, seed, scale)
     extra = 3 if tier == "quick" else 8
-    return [{"kind": "scene", "recipe": r, "seed": seed, "index": i, "extra": extra} for i, r in enumerate(recipes)]
+    tasks = [{"kind": "scene", "recipe": r, "seed": seed, "index": i, "extra": extra} for i, r in enumerate(recipes)]
+    # cross-validation of the incarnation model against real processes and a real directory
+    n_real = 2 if tier == "quick" else 12
+    algs = ["Adam", "SGD-momentum", "RMSprop", "Adagrad", "AdamW", "Adamax", "NAdam", "RAdam", "Adadelta", "ASGD", "Rprop", "LBFGS"]
+    scheds = list(_SCHEDULERS)
+    for j in range(n_real):
+        r = {"kind": "toy_opt", "algorithm": algs[j % len(algs)], "scheduler": scheds[(j + 3) % len(scheds)], "loss": "map", "iterations": 400, "freq": 40, "param_dtype": "default"}
+        tasks.append({"kind": "real", "recipe": r, "seed": seed, "index": 100000 + j, "kill_after_checkpoints": 2 + j % 4})
+    return tasks
+
+
+def run_real(task):
+    """The same question asked of real processes: torchtree run as a subprocess on a real
+    scratch directory, SIGKILLed once the n-th checkpoint has been written, restarted with -c;
+    the parameters of the last checkpoint must equal those of an uninterrupted process."""
+    import os
+    import shutil
+    import signal
+    import subprocess
+    import tempfile
+    import time
+
+    recipe = task["recipe"]
+    spec, meta = build_spec(recipe)
+    tmp = tempfile.mkdtemp(prefix="verif_c17_real_", dir=os.environ.get("TMPDIR", "/tmp"))
+    out = {"violations": [], "states": {}, "stats": {"real_processes": 0}, "fired": {}, "runs": 1, "samples": [], "excluded": None, "scene": "real:" + _scene_class(recipe)}
+    try:
+        def config(d):
+            s = json.loads(json.dumps(spec).replace(scenes.RUN, d))
+            path = os.path.join(d, "config.json")
+            with open(path, "w") as fp:
+                json.dump(s, fp)
+            return path, os.path.join(d, "checkpoint.json")
+
+        env = dict(os.environ, OMP_NUM_THREADS="1", MKL_NUM_THREADS="1")
+        env.pop("TORCHTREE_VERIF", None)
+        if os.environ.get("VERIF_REPO"):
+            env["PYTHONPATH"] = os.environ["VERIF_REPO"] + os.pathsep + env.get("PYTHONPATH", "")
+        cmd = [sys.executable, "-c", "import torch; torch.set_num_threads(1); from torchtree.torchtree import main; main()"]
+
+        def params_of(ck):
+            with open(ck) as fp:
+                d = json.load(fp)
+            return d[0].get("iteration"), {e["id"]: e["tensor"] for e in d if str(e.get("type", "")).endswith("Parameter")}
+
+        da = os.path.join(tmp, "a")
+        os.makedirs(da)
+        ca, cka = config(da)
+        subprocess.run(cmd + ["-s", "1", ca], cwd=da, env=env, capture_output=True, timeout=600, check=True)
+        out["stats"]["real_processes"] += 1
+        ita, pa = params_of(cka)
+        db = os.path.join(tmp, "b")
+        os.makedirs(db)
+        cb, ckb = config(db)
+        p = subprocess.Popen(cmd + ["-s", "1", cb], cwd=db, env=env, stdout=subprocess.DEVNULL, stderr=subprocess.DEVNULL)
+        out["stats"]["real_processes"] += 1
+        seen, last = 0, None
+        t0 = time.time()
+        while p.poll() is None and time.time() - t0 < 300:
+            try:
+                st = os.stat(ckb)
+                sig = (st.st_mtime_ns, st.st_ino)
+                if sig != last:
+                    last = sig
+                    seen += 1
+                    if seen >= task["kill_after_checkpoints"]:
+                        p.send_signal(signal.SIGKILL)
+                        out["fired"]["real_sigkill"] = 1
+                        break
+            except FileNotFoundError:
+                pass
+        p.wait()
+        if not os.path.exists(ckb):
+            out["excluded"] = "no checkpoint present after the kill (outside C17; see C18)"
+            return out
+        r = subprocess.run(cmd + ["-s", "1", "-c", ckb, cb], cwd=db, env=env, capture_output=True, text=True, timeout=600)
+        out["stats"]["real_processes"] += 1
+        if r.returncode != 0:
+            out["violations"].append({"signature": {"engine": "restart_sim", "oracle": "restart_fails", "algo": "Optimizer", "component": "real-process", "attr": "exit"},
+                                      "message": "real process restarted from a checkpoint exited %d: %s" % (r.returncode, r.stderr[-600:])})
+            return out
+        itb, pb = params_of(ckb)
+        if ita != itb or pa != pb:
+            bad = sorted(k for k in set(pa) | set(pb) if pa.get(k) != pb.get(k))
+            out["violations"].append({"signature": {"engine": "restart_sim", "oracle": "trajectory", "algo": "Optimizer", "component": "real-process", "attr": "final-checkpoint"},
+                                      "message": "real processes: final checkpoint after kill+restart (iteration %s) differs from the uninterrupted one (iteration %s) in %s" % (itb, ita, bad[:4])})
+        out["states"]["Optimizer|real:%s|sigkill|resumed=True|finished" % _scene_class(recipe)] = 1
+        out["samples"].append({"recipe": recipe, "real_process": True, "kill_after_checkpoints": task["kill_after_checkpoints"]})
+    finally:
+        shutil.rmtree(tmp, ignore_errors=True)
+    out["digest"] = "real"
+    return out
 
 
 def selftest_indices(tasks, n):
-    step = max(1, len(tasks) // n)
-    return list(range(0, len(tasks), step))[:n]
+    idx = [i for i, t in enumerate(tasks) if t["kind"] == "scene"]
+    step = max(1, len(idx) // n)
+    return idx[::step][:n]
 
 
 def run_task(task):
     from sim import envinfo
 
+    if task["kind"] == "replay" and "real" in task["scenario"]:
+        r = run_real(task["scenario"]["real"])
+        return {"violations": [dict(v, scenario=task["scenario"], engine=ENGINE) for v in r["violations"]], "digest": "real", "excluded": r.get("excluded")}
     if task["kind"] == "replay":
         r = execute(task["scenario"])
         return {"violations": [dict(v, scenario=task["scenario"], engine=ENGINE) for v in r["violations"]], "digest": r["digest"],
                 "excluded": r.get("excluded")}
+    if task["kind"] == "real":
+        r = run_real(task)
+        r["violations"] = [dict(v, scenario={"real": task}, engine=ENGINE, found_by="real-process cross-validation", environment=envinfo.environment()) for v in r["violations"]]
+        return r
     recipe = task["recipe"]
     seed = task["seed"]
     dtype = recipe.get("dtype", "float64")
